@@ -11,7 +11,7 @@ template <int R, class T> bool leaf_ok(World<T>& W, int id) { return W.views.cou
 // which statement families a shape is offered to (keeps the number of template instantiations, i.e. the
 // compile time, bounded): every family sees only its own sub-menu
 enum { M_ASG = 1, M_CMP = 2, M_DIV = 4, M_WHR = 8, M_RED = 16, M_IDX = 32, M_FIX = 64, M_EO = 128, M_RED2 = 256,
-       M_DOT1 = 512, M_DOT2 = 1024, M_ICMP = 2048 };
+       M_DOT1 = 512, M_DOT2 = 1024, M_ICMP = 2048, M_WC = 4096, M_FW = 8192 };
 
 template <int R, class T, class K>
 bool with_indexed(World<T>& W, int wid, K&& k);      // k(IndexedArray) for an indexed view whose result rank is R
@@ -25,11 +25,11 @@ bool with_expr(World<T>& W, const Shape& sh, K&& k) {
 #define LF(i) (Get<R, T>::f(W.views[sh.L[i]]))
   size_t nL = sh.L.size(), nC = sh.C.size();
   if (sh.Wl.empty() && sh.Sl.empty() && sh.Ol.empty()) {
-    SHAPE(M_ASG | M_CMP | M_DIV | M_WHR | M_RED | M_RED2 | M_IDX | M_FIX | M_EO | M_DOT1 | M_DOT2 | M_ICMP, "L", nL == 1, LF(0))
-    SHAPE(M_ASG | M_CMP | M_FIX, "add L L", nL == 2, LF(0) + LF(1))
+    SHAPE(M_ASG | M_CMP | M_DIV | M_WHR | M_RED | M_RED2 | M_IDX | M_FIX | M_EO | M_DOT1 | M_DOT2 | M_ICMP | M_WC | M_FW, "L", nL == 1, LF(0))
+    SHAPE(M_ASG | M_CMP | M_FIX | M_WC, "add L L", nL == 2, LF(0) + LF(1))
     SHAPE(M_ASG, "sub L L", nL == 2, LF(0) - LF(1))
     SHAPE(M_ASG | M_WHR | M_RED2 | M_IDX | M_FIX, "mul L L", nL == 2, LF(0) * LF(1))
-    SHAPE(M_ASG | M_RED2 | M_IDX | M_FIX | M_EO | M_DOT1 | M_ICMP, "add L c", nL == 1 && nC == 1, LF(0) + c0)
+    SHAPE(M_ASG | M_RED2 | M_IDX | M_FIX | M_EO | M_DOT1 | M_ICMP | M_WC | M_FW, "add L c", nL == 1 && nC == 1, LF(0) + c0)
     SHAPE(M_ASG | M_CMP, "sub c L", nL == 1 && nC == 1, c0 - LF(0))
     SHAPE(M_ASG | M_DOT2, "mul c L", nL == 1 && nC == 1, c0 * LF(0))
     SHAPE(M_ASG | M_CMP, "mul L c", nL == 1 && nC == 1, LF(0) * c0)
@@ -178,7 +178,8 @@ template <class T> std::string image_diff(World<T>& W, const std::vector<T>& exp
 
 // "evaluate the whole right-hand side (and the mask) through operator() into temporaries, then store through
 // operator()": performed on the real memory, the result is recorded and the memory restored.
-// kind: 0 plain, 1..4 compound (+ - * /), 5 where, 6 either_or, 7 scalar broadcast
+// kind: 0 plain, 1..4 compound (+ - * /), 5 where, 6 either_or, 7 scalar broadcast, 11..14 where-compound (+ - * /):
+// selected elements become old OP rhs (mask, old and rhs all read before anything is stored), the others are not stored
 // returns 0 ok, 1 hazard
 template <int R, class T, class WR>
 int oracle_expected(World<T>& W, int kind, const int* d, WR&& write_lhs, const std::function<T(const int*)>& read_lhs,
@@ -194,9 +195,10 @@ int oracle_expected(World<T>& W, int kind, const int* d, WR&& write_lhs, const s
     const Shape* src = (kind == 6 && !m) ? rhs2 : rhs;
     long sc = (kind == 6 && !m) ? rhs2_scalar : rhs_scalar;
     if (src) { Tok t; t.w = src->toks; t.p = 0; v = evalE(W, t, cs.c, R, hz); } else v = sc;
-    if (kind >= 1 && kind <= 4) {
+    const int ck = (kind >= 11 && kind <= 14) ? kind - 10 : kind;
+    if (ck >= 1 && ck <= 4) {   // at every position: the temporary-copy path evaluates the whole right-hand side
       long long a = (long long)read_lhs(cs.c);
-      if (kind == 1) v = a + v; else if (kind == 2) v = a - v; else if (kind == 3) v = a * v;
+      if (ck == 1) v = a + v; else if (ck == 2) v = a - v; else if (ck == 3) v = a * v;
       else { if (v == 0 || (!std::is_integral<T>::value && a % v != 0)) hz = true; else v = a / v; }
       long long lim = std::is_integral<T>::value ? (1LL << 30) : (1LL << 50);
       if (v > lim || v < -lim) hz = true;
@@ -238,6 +240,52 @@ template <class LHS, class E> void do_op(int kind, LHS& l, const E& e) {
   }
 }
 
+// `A.where(mask) OP= e`.  On the pinned tree the four operators do not compile (where.h ADEPT_WHERE_OPERATOR writes
+// noalias(*this) with *this the Where proxy: finding where-compound-does-not-compile; checks/c04.py probes this on every
+// run).  Without -DVERIF_WHERE_COMPOUND_NATIVE the statement is executed through the macro body with the operand repaired,
+// `A.assign_conditional(mask, noalias(A) OP e)`, so that Array/FixedArray::assign_conditional is exercised with exactly the
+// right-hand side the operator would build.
+template <class A, class M, class E> void do_wop(int ck, A& a, const M& mk, const E& e) {
+#ifdef VERIF_WHERE_COMPOUND_NATIVE
+  switch (ck) {
+    case 1: a.where(mk) += e; break;
+    case 2: a.where(mk) -= e; break;
+    case 3: a.where(mk) *= e; break;
+    default: a.where(mk) /= e; break;
+  }
+#else
+  switch (ck) {
+    case 1: a.assign_conditional(mk, noalias(a) + e); break;
+    case 2: a.assign_conditional(mk, noalias(a) - e); break;
+    case 3: a.assign_conditional(mk, noalias(a) * e); break;
+    default: a.assign_conditional(mk, noalias(a) / e); break;
+  }
+#endif
+}
+
+// a std::initializer_list of run-time length (0..MAXN): the pack is expanded into a NAMED list, whose backing array lives for the
+// block, and handed to the continuation
+template <int MAXN, class T, class F, class... Xs>
+void with_ilist(const std::vector<T>& x, size_t k, F&& f, Xs... xs) {
+  if (k == x.size()) { std::initializer_list<T> il = {xs...}; f(il); return; }
+  if constexpr ((int)sizeof...(Xs) < MAXN) with_ilist<MAXN>(x, k + 1, f, xs..., x[k]);
+}
+// target = {x...} (rank 1) or target = {{...}, {...}, ...} (rank 2, 1..3 rows, each of its own length 0..4)
+template <int R, class T, class TGT> void assign_ilist(TGT& target, const std::vector<std::vector<T> >& rows) {
+  typedef std::initializer_list<T> IL;
+  if constexpr (R == 1) with_ilist<5>(rows[0], 0, [&](IL a) { target = a; });
+  else {
+    const size_t nr = rows.size();
+    with_ilist<4>(rows[0], 0, [&](IL a) {
+      if (nr == 1) { target = {a}; return; }
+      with_ilist<4>(rows[1], 0, [&](IL b) {
+        if (nr == 2) { target = {a, b}; return; }
+        with_ilist<4>(rows[2], 0, [&](IL c) { target = {a, b, c}; });
+      });
+    });
+  }
+}
+
 template <int R, class T> bool arg_dims(World<T>& W, const Shape& sh, int* d) {
   d[0] = d[1] = d[2] = 0;
   if (sh.first_view >= 0 && W.views.count(sh.first_view)) {
@@ -274,7 +322,8 @@ bool exec_ranked(World<T>& W, std::vector<std::string>& w, std::string& out) {
   const std::string& op = w[0];
   std::ostringstream os;
   // ---------------- statements on an Array target
-  if (op == "asg" || op == "asge" || op == "cadd" || op == "csub" || op == "cmul" || op == "cdiv" || op == "sca" || op == "whr" || op == "weo") {
+  if (op == "asg" || op == "asge" || op == "asgi" || op == "cadd" || op == "csub" || op == "cmul" || op == "cdiv" || op == "sca" || op == "whr" || op == "weo" ||
+      op == "wcadd" || op == "wcsub" || op == "wcmul" || op == "wcdiv") {
     int lid = idof(w[1]);
     if (!leaf_ok<R>(W, lid)) return false;
     VW<T>& lv = W.views[lid];
@@ -291,6 +340,23 @@ bool exec_ranked(World<T>& W, std::vector<std::string>& w, std::string& out) {
       if (oracle_expected<R, T>(W, 7, d, wl, rl, 0, 0, x, 0, 0, expected)) { out = "hazard"; return true; }
       Lh = (T)x;
       out = "ok" + verdict(W, expected); return true;
+    }
+    const int wck = op == "wcadd" ? 1 : op == "wcsub" ? 2 : op == "wcmul" ? 3 : op == "wcdiv" ? 4 : 0;
+    if (wck) {
+      Shape msh; if (!parse_shape(t, msh, true)) return false;
+      if (!t.more() || t.next() != ";") return false;
+      Shape r1; long s1 = 0; bool sc1 = false;
+      if (t.more() && t.peek()[0] == 's') { sc1 = true; s1 = atol(t.next().c_str() + 1); } else if (!parse_shape(t, r1, false)) return false;
+      if (t.more()) return false;
+      if (oracle_expected<R, T>(W, 10 + wck, d, wl, rl, &msh, sc1 ? 0 : &r1, s1, 0, 0, expected)) { out = "hazard"; return true; }
+      int aflag = 0;
+      bool done = with_mask<1, R>(W, msh, [&](const auto& mk) {
+        if (sc1) { do_wop(wck, Lh, mk, (T)s1); return true; }
+        return with_expr<M_WC, R>(W, r1, [&](const auto& e) { aflag = aliased(e, pb, pe); do_wop(wck, Lh, mk, e); return true; });
+      });
+      if (!done) return false;
+      os << "ok a=" << aflag;
+      out = os.str() + verdict(W, expected); return true;
     }
     if (op == "whr" || op == "weo") {
       Shape msh; if (!parse_shape(t, msh, true)) return false;
@@ -325,13 +391,16 @@ bool exec_ranked(World<T>& W, std::vector<std::string>& w, std::string& out) {
       out = os.str() + verdict(W, expected); return true;
     }
     Shape sh; if (!parse_shape(t, sh, false) || t.more()) return false;
-    int kind = (op == "asg" || op == "asge") ? 0 : op == "cadd" ? 1 : op == "csub" ? 2 : op == "cmul" ? 3 : 4;
+    int kind = (op == "asg" || op == "asge" || op == "asgi") ? 0 : op == "cadd" ? 1 : op == "csub" ? 2 : op == "cmul" ? 3 : 4;
     if (oracle_expected<R, T>(W, kind, d, wl, rl, 0, &sh, 0, 0, 0, expected)) { out = "hazard"; return true; }
     int aflag = 0; bool done;
     // asge: the right-hand side is an rvalue Array (eval(e) returns a temporary that owns its data): move assignment,
     // which may steal the temporary's data only if the target owns unshared storage — a view or a storage-less target
     // must be stored into in place
     if (op == "asge") done = with_expr<M_ASG, R>(W, sh, [&](const auto& e) { aflag = aliased(e, pb, pe); Lh = eval(e); return true; });
+    // asgi: the public Array::assign_inactive(expr) ("activeness of the right-hand side ignored"; also behind operator<< of an
+    // expression): for a passive array the same alias test + temporary as operator=, through its own code path
+    else if (op == "asgi") done = with_expr<M_FIX, R>(W, sh, [&](const auto& e) { aflag = aliased(e, pb, pe); Lh.assign_inactive(e); return true; });
     else if (kind == 0) done = with_expr<M_ASG, R>(W, sh, [&](const auto& e) { aflag = aliased(e, pb, pe); Lh = e; return true; });
     else if (kind == 4) done = with_expr<M_DIV, R>(W, sh, [&](const auto& e) { aflag = aliased(e, pb, pe); Lh /= e; return true; });
     else done = with_expr<M_CMP, R>(W, sh, [&](const auto& e) { aflag = aliased(e, pb, pe); do_op(kind, Lh, e); return true; });
@@ -362,6 +431,128 @@ bool exec_ranked(World<T>& W, std::vector<std::string>& w, std::string& out) {
     });
     if (hazard) { out = "hazard"; return true; }
     return done;
+  }
+  // ---------------- FixedArray.where(mask) = / += / *= rhs, = either_or(c, d)
+  if (op == "fwhr" || op == "fwcadd" || op == "fwcmul" || op == "fweo") {
+    int aid = idof(w[1]);
+    if (!W.allocs.count(aid) || !W.allocs[aid].fkind) return false;
+    Tok t; t.w = w; t.p = 2;
+    Shape msh; if (!parse_shape(t, msh, true)) return false;
+    if (!t.more() || t.next() != ";") return false;
+    Shape r1, r2; long s1 = 0, s2 = 0; bool sc1 = false, sc2 = false;
+    if (t.more() && t.peek()[0] == 's') { sc1 = true; s1 = atol(t.next().c_str() + 1); } else if (!parse_shape(t, r1, false)) return false;
+    if (op == "fweo") {
+      if (!t.more() || t.next() != ";") return false;
+      if (t.more() && t.peek()[0] == 's') { sc2 = true; s2 = atol(t.next().c_str() + 1); } else if (!parse_shape(t, r2, false)) return false;
+    }
+    if (t.more()) return false;
+    int kind = op == "fwhr" ? 5 : op == "fweo" ? 6 : op == "fwcadd" ? 11 : 13;
+    int aflag = 0; bool hazard = false;
+    bool done = with_fixed<R>(W.allocs[aid], [&](auto& fa) {
+      int d[3] = {0, 0, 0}; for (int k = 0; k < R; ++k) d[k] = fa.dimension(k);
+      auto wl = [&](const int* c, T x) { if constexpr (R == 1) fa(c[0]) = x; else if constexpr (R == 2) fa(c[0], c[1]) = x; else fa(c[0], c[1], c[2]) = x; };
+      std::function<T(const int*)> rl = [&](const int* c) { if constexpr (R == 1) return (T)fa(c[0]); else if constexpr (R == 2) return (T)fa(c[0], c[1]); else return (T)fa(c[0], c[1], c[2]); };
+      std::vector<T> expected;
+      if (oracle_expected<R, T>(W, kind, d, wl, rl, &msh, sc1 ? 0 : &r1, s1, sc2 ? 0 : &r2, s2, expected)) { hazard = true; return true; }
+      const T* pb; const T* pe; fa.data_range(pb, pe);
+      bool ok2 = with_mask<1, R>(W, msh, [&](const auto& mk) {
+        if (kind == 6) {
+          auto second = [&](const auto& e1) {
+            if (sc2) { fa.where(mk) = either_or(e1, (T)s2); return true; }
+            if (r2.s != "L") return false;
+            return with_expr<M_RED, R>(W, r2, [&](const auto& e2) { fa.where(mk) = either_or(e1, e2); return true; });
+          };
+          if (sc1) return second((T)s1);
+          if (r1.s != "L") return false;
+          return with_expr<M_RED, R>(W, r1, [&](const auto& e1) { return second(e1); });
+        }
+        if (sc1) { if (kind == 5) fa.where(mk) = (T)s1; else do_wop(kind - 10, fa, mk, (T)s1); return true; }
+        return with_expr<M_FW, R>(W, r1, [&](const auto& e) {
+          aflag = aliased(e, pb, pe);
+          if (kind == 5) fa.where(mk) = e; else do_wop(kind - 10, fa, mk, e);
+          return true; });
+      });
+      if (ok2) { if (kind == 6) os << "ok"; else os << "ok a=" << aflag; out = os.str() + verdict(W, expected); }
+      return ok2;
+    });
+    if (hazard) { out = "hazard"; return true; }
+    return done;
+  }
+  // ---------------- initializer lists as statements: v = {..} / M = {{..},{..}} on Array, FixedArray, IndexedArray targets
+  // ilst v<id> | filst f<aid> | iilst w<id>   <nrows> <n0> x.. <n1> x.. ...
+  // oracle = the documented meaning: the listed elements are stored, every other element of the target becomes zero
+  if (op == "ilst" || op == "filst" || op == "iilst") {
+    if constexpr (R <= 2) {
+      size_t p = 2;
+      if (w.size() < 4) return false;
+      int nrows = atoi(w[p++].c_str());
+      if (nrows < 1 || nrows > 3 || (R == 1 && nrows != 1)) return false;
+      std::vector<std::vector<T> > rows(nrows);
+      for (int i = 0; i < nrows; ++i) {
+        if (p >= w.size()) return false;
+        int n = atoi(w[p++].c_str());
+        if (n < 0 || n > (R == 1 ? 5 : 4) || p + n > w.size()) return false;
+        for (int j = 0; j < n; ++j) rows[i].push_back((T)atol(w[p++].c_str()));
+      }
+      if (p != w.size()) return false;
+      auto val = [&](const int* c) -> T {
+        if constexpr (R == 1) return c[0] < (int)rows[0].size() ? rows[0][c[0]] : (T)0;
+        else return (c[0] < nrows && c[1] < (int)rows[c[0]].size()) ? rows[c[0]][c[1]] : (T)0;
+      };
+      auto fits = [&](const int* d, bool exact) {
+        if (nrows > d[0] && R == 2) return false;
+        for (int i = 0; i < nrows; ++i) if ((int)rows[i].size() > d[R - 1]) return false;
+        if (exact) { if (R == 2 && nrows != d[0]) return false; for (int i = 0; i < nrows; ++i) if ((int)rows[i].size() != d[R - 1]) return false; }
+        return true;
+      };
+      auto expect = [&](const int* d, auto&& wl, std::vector<T>& expected) {
+        std::vector<T> snap = snapshot(W);
+        Coords<R> cs; for (int k = 0; k < R; ++k) cs.d[k] = d[k];
+        if (cs.first()) do { wl(cs.c, val(cs.c)); } while (cs.next());
+        expected = snapshot(W);
+        restore(W, snap);
+      };
+      std::vector<T> expected;
+      if (op == "ilst") {
+        int lid = idof(w[1]);
+        if (!leaf_ok<R>(W, lid)) return false;
+        VW<T>& lv = W.views[lid];
+        int d[3]; dims_of(lv, d);
+        if (!fits(d, false)) { out = "hazard"; return true; }
+        expect(d, [&](const int* c, T x) { wr(lv, c, x); }, expected);
+        assign_ilist<R, T>(Get<R, T>::f(lv), rows);
+        out = "ok" + verdict(W, expected); return true;
+      }
+      if (op == "filst") {
+        int aid = idof(w[1]);
+        if (!W.allocs.count(aid) || !W.allocs[aid].fkind) return false;
+        bool hazard = false;
+        bool done = with_fixed<R>(W.allocs[aid], [&](auto& fa) {
+          int d[3] = {0, 0, 0}; for (int k = 0; k < R; ++k) d[k] = fa.dimension(k);
+          if (!fits(d, false)) { hazard = true; return true; }
+          expect(d, [&](const int* c, T x) { if constexpr (R == 1) fa(c[0]) = x; else fa(c[0], c[1]) = x; }, expected);
+          assign_ilist<R, T>(fa, rows);
+          out = "ok" + verdict(W, expected);
+          return true;
+        });
+        if (hazard) { out = "hazard"; return true; }
+        return done;
+      }
+      if constexpr (R == 1) {
+        int wid = idof(w[1]);
+        if (!W.iviews.count(wid)) return false;
+        IV& iv = W.iviews[wid];
+        if (iv.krank != 1 || !W.views.count(iv.view)) return false;
+        VW<T>& pv = W.views[iv.view];
+        int d[3]; iv_dims(W, iv, d);
+        if (!fits(d, true)) { out = "hazard"; return true; }    // IndexedArray = list goes through a temporary Array: extents must agree
+        { int c[3] = {0, 0, 0}, pc[3]; for (c[0] = 0; c[0] < d[0]; ++c[0]) if (!iv_coords(W, iv, c, pc)) { out = "hazard"; return true; } }
+        expect(d, [&](const int* c, T x) { int pc[3]; iv_coords(W, iv, c, pc); wr(pv, pc, x); }, expected);
+        if (!with_indexed<1>(W, wid, [&](auto iw) { assign_ilist<1, T>(iw, rows); return true; })) return false;
+        out = "ok" + verdict(W, expected); return true;
+      }
+    }
+    return false;
   }
   // ---------------- IndexedArray target
   if (op == "iasg" || op == "icadd" || op == "icsub" || op == "icmul" || op == "isca") {
